@@ -45,6 +45,13 @@ def c_zip(ex, st, args, path, callee):
     return ret(mk([('pair', x, y) for x, y in zip(a, b)]), path)
 
 
+def c_zip_longest(ex, st, args, path, callee):
+    a, b = pending(args[0]), as_items(ex, args[1])
+    out = [('eob', 'Both', x, y) for x, y in zip(a, b)]
+    out += [('eob', 'Left', x, None) for x in a[len(b):]] + [('eob', 'Right', None, y) for y in b[len(a):]]
+    return ret(mk(out), path)
+
+
 def c_rev(ex, st, args, path, callee):
     return ret(mk(list(reversed(pending(args[0])))), path)
 
@@ -77,6 +84,9 @@ def materialise(ex, mem, item):
         return item[1]
     if item[0] == 'pair':
         return Struct([materialise(ex, mem, item[1]), materialise(ex, mem, item[2])])
+    if item[0] == 'eob':
+        from .common import Enum
+        return Enum(item[1], [materialise(ex, mem, x) for x in item[2:] if x is not None], 'EitherOrBoth')
     raise Unsupported(f'iterator item {item}')
 
 
@@ -144,6 +154,7 @@ ITER = [
     ('Iterator::copied / cloned', r' as Iterator>::(copied|cloned)(::<.*>)?$', c_copied),
     ('Iterator::enumerate', r' as Iterator>::enumerate$', c_enumerate),
     ('Iterator::zip', r' as Iterator>::zip::<', c_zip),
+    ('Itertools::zip_longest', r' as Itertools>::zip_longest::<', c_zip_longest),
     ('Iterator::rev', r' as Iterator>::rev$', c_rev),
     ('Iterator::skip(n): case split on n', r' as Iterator>::skip$', c_skip_take('skip')),
     ('Iterator::take(n): case split on n', r' as Iterator>::take$', c_skip_take('take')),
